@@ -92,8 +92,7 @@ func (p *c18Pair) detach(c *c18Chan, where string) bool {
 	c.raw = raw
 	c.detachedAt = where
 	c.mu.Unlock()
-	_, _ = raw.Write([]byte("still-in-use")) // the channel is alive: the application keeps using the stream
-	c.detachOrd.Store(p.nOrd.Add(1))         // stamped after Detach returned
+	c.detachOrd.Store(p.nOrd.Add(1)) // stamped after Detach returned
 	c.sample("detached")
 
 	return true
@@ -118,6 +117,30 @@ func (p *c18Pair) onOpen(c *c18Chan) {
 	if p.plan.wantsOnOpenDetach(c) {
 		p.detach(c, "onopen")
 	}
+}
+
+// useDetached writes once on the raw handle of every detached channel that is not closed: the channels are alive and in
+// use. Done between the rounds (not in OnOpen), so that the creation bursts are not inflated with user data: pion/sctp
+// discards data for new streams while its accept queue (16) is full and leaves it to the sender's retransmission timer.
+func (p *c18Pair) useDetached() (n, failed int) {
+	for side := 0; side < 2; side++ {
+		for _, c := range p.list(side) {
+			c.mu.Lock()
+			raw, used := c.raw, c.rawUsed
+			c.rawUsed = true
+			c.mu.Unlock()
+			if raw == nil || used || p.isClosedID(c.sample("poll")) {
+				continue
+			}
+			if _, err := raw.Write([]byte("still-in-use")); err != nil {
+				failed++
+			} else {
+				n++
+			}
+		}
+	}
+
+	return n, failed
 }
 
 // detachLater detaches up to k open, not yet detached channels of every detach-mode peer from the application goroutine.
